@@ -331,7 +331,8 @@ class C15(Profile):
         cfg["p_param"] = 0
         cfg["convert"] = rng.random() < 0.5
         cfg["emu_max_modes"] = 6
-        cfg["tomo_qubits"] = [1, 2, 2] if TIER != "thorough" else [1, 2, 2, 3]
+        cfg["tomo_qubits"] = ([1, 2, 2, 1, 2, 2, 2, 3] if TIER != "thorough"
+                              else [1, 2, 2, 3])
         cfg["min_circuits"] = 0
         return cfg
 
